@@ -67,6 +67,17 @@ func intOf(v types.MalType) int {
 	if i, ok := v.(int); ok {
 		return i
 	}
+	// "seq" style: the atom holds [n] (encoded n) or (n) (encoded 1000+n): values that are = but distinguishable
+	if vec, ok := v.(types.Vector); ok && len(vec.Val) == 1 {
+		if i, ok := vec.Val[0].(int); ok {
+			return i
+		}
+	}
+	if lst, ok := v.(types.List); ok && len(lst.Val) == 1 {
+		if i, ok := lst.Val[0].(int); ok {
+			return 1000 + i
+		}
+	}
 	// "map" style: the atom holds {:k n}
 	if m, ok := v.(types.HashMap); ok {
 		if x, found := m.Val["\u029ek"]; found {
@@ -125,6 +136,28 @@ var atomOpKinds = []string{"deref", "reset", "swapinc", "swapinc", "swapfail", "
 func atomOpSrc(o atomOp, style string) string {
 	a := fmt.Sprintf("a%d", o.Atom)
 	b := fmt.Sprintf("a%d", o.B)
+	if style == "seq" {
+		lit := func(enc int) string {
+			if enc >= 1000 {
+				return fmt.Sprintf("(list %d)", enc-1000)
+			}
+			return fmt.Sprintf("[%d]", enc)
+		}
+		switch o.Op {
+		case "deref":
+			return "(enc @" + a + ")"
+		case "reset":
+			return fmt.Sprintf("(enc (reset! %s %s))", a, lit(o.V))
+		case "swapflip":
+			return fmt.Sprintf("(enc (swap! %s (fn [v] (if (vector? v) (apply list v) (vec v)))))", a)
+		case "swapfail":
+			return fmt.Sprintf("(enc (swap! %s (fn [v] (throw \"update failed\"))))", a)
+		case "print":
+			return fmt.Sprintf("(pr-str %s)", a)
+		default: // every other update function: increment, keeping the kind
+			return fmt.Sprintf("(enc (swap! %s (fn [v] (if (vector? v) [(+ (first v) 1)] (list (+ (first v) 1))))))", a)
+		}
+	}
 	if style == "map" {
 		switch o.Op {
 		case "deref":
@@ -215,12 +248,21 @@ func runAtomScenario(rec *atomRecorder, sc atomScenario) (hang string, infra err
 		if sc.Style == "map" {
 			init = "{:k 0}"
 		}
+		if sc.Style == "seq" {
+			init = "[0]"
+		}
 		ast, _ := lisp.READ(fmt.Sprintf("(def a%d (atom %s))", i, init), nil, ns)
 		v, e := lisp.EVAL(ctx, ast, ns)
 		if e != nil {
 			return "", e
 		}
 		rec.atoms[v.(*concurrent.Atom)] = i
+	}
+	if sc.Style == "seq" {
+		ast, _ := lisp.READ("(def enc (fn [v] (+ (first v) (if (vector? v) 0 1000))))", nil, ns)
+		if _, e := lisp.EVAL(ctx, ast, ns); e != nil {
+			return "", e
+		}
 	}
 	rec.emit(AtomEvent{Ev: "begin", N: sc.NAtoms})
 	// pre-read all operations
@@ -316,6 +358,28 @@ func cmdAtoms(args []string) {
 		sc := randomAtomScenario(rnd, *maxThreads, *maxOps)
 		if i%3 == 2 {
 			sc.Style = "map"
+		}
+		if i%6 == 1 {
+			// values that are = but distinguishable (list / vector): ops restricted to deref, reset, inc, flip, fail
+			sc.Style = "seq"
+			for t := range sc.Scripts {
+				for k := range sc.Scripts[t] {
+					o := &sc.Scripts[t][k]
+					switch o.Op {
+					case "swapaddother", "swapaddself", "swapswapother":
+						if rnd.Intn(2) == 0 {
+							o.Op = "swapflip"
+						} else {
+							o.Op = "swapinc"
+						}
+					case "reset":
+						o.V = o.V % 5 // small values: a reset often installs a value = to the current one, of the other kind
+						if rnd.Intn(2) == 0 {
+							o.V += 1000
+						}
+					}
+				}
+			}
 		}
 		scenarios = append(scenarios, sc)
 	}
